@@ -108,6 +108,14 @@ def space_value(case):
     return sp
 
 
+def num_float(n):
+    """the double denoted by a NUM description given by bit pattern, else None"""
+    import struct
+    if n.get("bits"):
+        return struct.unpack("<d", struct.pack("<Q", int(n["bits"])))[0]
+    return None
+
+
 def gap_units(case):
     """the specification's gap for this case"""
     sp = space_value(case)
@@ -115,6 +123,11 @@ def gap_units(case):
         return (sp.get("s") or [])[:10]
     if sp.get("t") in ("num", "boxnum"):
         n = sp.get("n") or {}
+        f = num_float(n)
+        if f is not None:
+            if f != f or f < 1:
+                return []
+            return [32] * (10 if f >= 10 else int(f))
         if n.get("sp") == "inf":
             return [32] * 10
         if n.get("q") is not None:
@@ -129,6 +142,9 @@ def space_is_huge_number(case):
     if sp.get("t") not in ("num", "boxnum"):
         return False
     n = sp.get("n") or {}
+    f = num_float(n)
+    if f is not None:
+        return f >= 2.0 ** 63
     return n.get("sp") == "inf" or (n.get("q") is not None and int(n["q"]) >= 4 * 2 ** 63)
 
 
